@@ -256,9 +256,19 @@ def render(c, stream, opts=None):
                         group = []
                         for bi in order:
                             idx = C["lo"] + bi
+                            ends = C["wires"][bi]
+                            if opts.get("split_bits", True) and ch.flag(1, 8):
+                                # the same bit declared twice (as in bundled float_demo.edf): the
+                                # endpoints of both declarations belong to the one bit
+                                h = ch.n(len(ends) + 1)
+                                info["bus_bit_declared_twice"] = info.get("bus_bit_declared_twice", 0) + 1
+                                group.append((ec, "          (%s (%s %s_%d_ %s) %s)" % (
+                                    KW("net"), KW("rename"), cid, idx, q("%s[%d]" % (C["name"], idx)),
+                                    joined(ends[:h]))))
+                                ends = ends[h:]
                             group.append((ec, "          (%s (%s %s_%d_ %s) %s)" % (
                                 KW("net"), KW("rename"), cid, idx, q("%s[%d]" % (C["name"], idx)),
-                                joined(C["wires"][bi]))))
+                                joined(ends))))
                         nets.append(group)
                         eD["cables"].append(ec)
                 # bit nets of one bus may be interleaved with other nets
